@@ -111,6 +111,11 @@ pub trait Scenario: 'static {
     fn crash_prestate(_case: &Self::Case, _label: &str) -> String {
         "-".into()
     }
+    /// Stack of the thread a run executes on. Small for C02 so that recursion proportional to the
+    /// input shows up at the input sizes the fault injector produces.
+    fn stack_bytes() -> usize {
+        8 << 20
+    }
     /// True when the thorough tier enumerates its (bounded) space completely.
     fn exhaustive(_tier: Tier) -> bool {
         false
@@ -207,7 +212,7 @@ pub fn execute_in_thread<S: Scenario>(env: &Envelope<S::Case>, timeout: Duration
     let case = env.case.clone();
     let hs = env.hash_seed;
     let h = std::thread::Builder::new()
-        .stack_size(8 << 20)
+        .stack_size(S::stack_bytes())
         .spawn(move || {
             hashseed::set_thread_hash_seed(hs);
             let out = execute_here::<S>(&case);
